@@ -1,7 +1,7 @@
 (* C05 — transactions are all-or-nothing and isolated.  Theorems only. *)
 From stdpp Require Import gmap strings.
 From Coq Require Import NArith.
-From Verif Require Import Store.Model Store.Inv Store.Theorems.
+From Verif Require Import Store.Model Store.Inv Store.Theorems Store.EndInv.
 Local Open Scope N_scope.
 
 (* If any operation fails, nothing changes: no table, no index row, no lock delay; no results. *)
@@ -28,6 +28,34 @@ Theorem C05_ro_pure : forall idx ops i s,
   forallb is_read ops = true -> (txn_dispatch idx i ops s).1.1 = s.
 Proof. exact txn_ro_pure. Qed.
 
+(* "At one index": after a committed transaction -- any length, any mix of KV, node, service, check
+   and session verbs, with all the cascades they trigger -- every KV row and every tombstone either
+   was there before, unchanged, or carries the transaction's index. *)
+Theorem C05_one_index : forall idx ops s,
+  (forall k e, kvs (txn_rw idx ops s).1 !! k = Some e -> kvs s !! k = Some e \/ kv_modify e = idx) /\
+  (forall k i, tombs (txn_rw idx ops s).1 !! k = Some i -> tombs s !! k = Some i \/ i = idx).
+Proof. intros idx ops s. exact (one_index idx (Txn ops) s). Qed.
+
+Example C05_one_index_example :
+  let s := (run ld_log st0).1 in
+  let s' := (txn_rw 4 [TCheck CSet (CheckReq "n1" "c1" 2 "" false "" 0 0); TKV VSet (KVReq "b" [1] 0 "" 0 0)] s).1 in
+  kvs s !! "a" = Some (KV [] 0 "s1" 1 3 3) /\ kvs s' !! "a" = Some (KV [] 0 "" 1 3 4) /\
+  kvs s' !! "b" = Some (KV [1] 0 "" 0 4 4).
+Proof. cbv zeta. repeat split; vm_compute; reflexivity. Qed.
+
+(* the same for every command *)
+Theorem C05_one_index_command : forall idx c s, Stamp s idx (apply idx c s).1.
+Proof. exact one_index. Qed.
+
+(* No operation of any transaction ever fails with the model's own "out of fuel" (a transaction that
+   failed only because a cascade was cut short would satisfy all-or-nothing for the wrong reason). *)
+Theorem C05_no_fuel : forall idx ops s j e,
+  match (txn_rw idx ops s).2 with CTxn _ es => (j, e) ∈ es -> e ≠ EFuel | _ => True end.
+Proof.
+  intros idx ops s j e. pose proof (no_fuel_anywhere idx (Txn ops) s) as H. cbn [apply] in H.
+  destruct (txn_rw idx ops s).2; try exact I. apply H.
+Qed.
+
 (* Every command (not only transactions) that reports an error leaves the state untouched. *)
 Theorem C05_failed_command_changes_nothing : forall idx c s e,
   (apply idx c s).2 = CErr e -> (apply idx c s).1 = s.
@@ -46,5 +74,9 @@ Print Assumptions C05_all_or_nothing.
 Print Assumptions C05_commit_is_sequential.
 Print Assumptions C05_txn_kv_is_command.
 Print Assumptions C05_ro_pure.
+Print Assumptions C05_one_index.
+Print Assumptions C05_one_index_command.
+Print Assumptions C05_one_index_example.
+Print Assumptions C05_no_fuel.
 Print Assumptions C05_failed_command_changes_nothing.
 Print Assumptions C05_example.
